@@ -8,15 +8,24 @@ pub mod macros;
 pub mod sym;
 pub mod refm;
 pub mod fields;
+pub mod toy_curves;
 
+#[cfg(feature = "c01")]
+pub mod c01_field;
 #[cfg(feature = "c15")]
 pub mod c15_bigint;
+#[cfg(feature = "c18")]
+pub mod c18_containers;
 
 /// name -> harness function, for native replay
 #[cfg(not(kani))]
 pub fn registry() -> std::vec::Vec<(&'static str, fn())> {
     let mut v: std::vec::Vec<(&'static str, fn())> = std::vec::Vec::new();
+    #[cfg(feature = "c01")]
+    v.extend_from_slice(c01_field::REG);
     #[cfg(feature = "c15")]
     v.extend_from_slice(c15_bigint::REG);
+    #[cfg(feature = "c18")]
+    v.extend_from_slice(c18_containers::REG);
     v
 }
